@@ -24,11 +24,11 @@ RULE = ("generated specifications (as for C08) staged in 4 (quick) / 8 (thorough
         "distinct = distinct specifications")
 
 
-def run_workers(ctx, jobs, seeds, mode="stage"):
+def run_workers(ctx, jobs, seeds, mode="stage", base_mode=None):
     outs = []
     procs = []
     for i, seed in enumerate(seeds):
-        base = os.path.join(ctx.scratch, "w%d-%s" % (i, mode))
+        base = os.path.join(ctx.scratch, "w%d-%s" % (i, base_mode or mode))
         os.makedirs(base, exist_ok=True)
         env = dict(os.environ, PYTHONHASHSEED=str(seed))
         p = subprocess.Popen([sys.executable, os.path.join(VERIF, "harness", "stage_worker.py"), mode, base],
